@@ -101,7 +101,7 @@ def run(pid, tier, seed, ev, count, hostile_names=False, modes=("t", "x", "e", "
         for rep in range(2 if tier == "quick" else 5):
             mode, opts = commands(rng, modes)
             if i < ncrafted and rep == 0:
-                mode, opts = ("t", "") if "t" in modes else ("x", "f")       # the crafted progress-bar cases: always once in full
+                mode, opts = ("t", "") if "t" in modes else ("x", "f") if "x" in modes else (modes[0], "")   # the crafted cases: always once in full
             if mode == "p" and sum(len(g.data) for g in ms) > 30000:
                 mode = "t"
             xd = os.path.join(sc, "x%d_%d" % (i, rep))
